@@ -38,6 +38,9 @@ var Patterns = []patSpec{
 	{`^(cat|dog)-[0-9]+$`, []string{"cat-1", "dog-42"}, []string{"cat", "bird-1", "cat-"}},
 	{`^A.*z$`, []string{"Az", "Abcz"}, []string{"az", "Ab", ""}},
 	{`^x?y+$`, []string{"y", "xyy"}, []string{"x", "xxy", ""}},
+	// strings that need escapes when written: the pattern sees the decoded text
+	{`^.{3}$`, []string{"a\\b", "a\tb", "\"q\"", "a/b", "é€😀"}, []string{"a\\\\b", "ab", "\\\\", "a\\tb"}},
+	{`^[^\\]+\\$`, []string{"dir\\", "a\\"}, []string{"dir", "\\\\", "a\\b"}},
 }
 
 func pick[T any](rng *rand.Rand, s []T) T { return s[rng.IntN(len(s))] }
